@@ -2879,8 +2879,16 @@ Case_BaseLdurStur:
         if (!check_even(o0, o2) || !check_gp_id(o0, o2, kZR))
           goto InvalidPhysId;
 
-        if (!check_consecutive(o0, o1) || !check_consecutive(o2, o3))
-          goto InvalidPhysId;
+        // The second register of each pair must follow the first one - the successor of W30|X30 is ZR (register 31
+        // never designates SP in CASP).
+        {
+          uint32_t s_next = o0.id() + 1u;
+          uint32_t t_next = o2.id() + 1u;
+
+          if (o1.id() != (s_next == 31u ? uint32_t(Gp::kIdZr) : s_next) ||
+              o3.id() != (t_next == 31u ? uint32_t(Gp::kIdZr) : t_next))
+            goto InvalidPhysId;
+        }
 
         opcode.reset(op_data.opcode());
         opcode.add_imm(x, op_data.x_offset);
